@@ -1,6 +1,6 @@
 // Runtime contract check of the LSP glue (attached to harper-ls/src/document_state.rs). BOUNDED stand-in
 // for the parts of C08 outside pos_conv (Url / HashMap / serde_json / LintGroup are outside both verifiers):
-// for 16 texts (astral and combining characters, tabs, LF and CRLF line ends, with and without a trailing
+// for 19 texts (astral and combining characters, tabs, LF and CRLF line ends, with and without a trailing
 // newline, lints on the first / a middle line) and every lint they produce:
 //   (1) the diagnostic range equals the reference LSP positions (line = LF count, column = UTF-16 units)
 //       of the lint's character span;
@@ -51,6 +51,9 @@ fn rac_lsp_glue() {
         "It's 1th, 2th and 3th.\nend\n",
         "\n\nAn test after blank lines.\n.\n",
         "I like apples, oranges and bananas.\nnext\n",
+        "All fine here.\nthe the cat sat.\nend\n",
+        "Fine.\nspeling is hard.\nx\n",
+        "“中文” — this is an test, mispelled too.\nend\n",
         "😀 ok\r\nShe bought milk, eggs and bread 😀 today.\r\nend\r\n",
     ];
     let cfg = CodeActionConfig { force_stable: false };
@@ -117,5 +120,5 @@ fn rac_lsp_glue() {
         }
     }
     if !seen_insert_after { println!("RAC-CEX lsp_glue {{\"why\": \"vacuity guard: no InsertAfter suggestion was exercised\"}}"); panic!("vacuous"); }
-    println!("RAC-OK lsp_glue cases={} nontrivial={} bound=16-texts,every-lint,every-cursor-position", cases, nontrivial);
+    println!("RAC-OK lsp_glue cases={} nontrivial={} bound=19-texts,every-lint,every-cursor-position", cases, nontrivial);
 }
